@@ -420,7 +420,7 @@ long Ranges::value(size_t idx, Status* ok) const {
     // The previous loop ended in error
     std::stringstream ss;
     ss << "Index " << idx << " exceeds the total range";
-    internal::handleErrorStatus(ss.str());
+    internal::handleErrorStatus(ss.str(), ok);
 
     return 0;
 }
